@@ -226,13 +226,28 @@ def norm_6(ctx, rep):
     prog = ctx.prog
     mod = prog.mod(PEP8)
     n_pops = 0
-    for f in mod.funcs.values():
-        # aliases of the stack top
-        aliases = {'self._indentation_tos'}
-        for n in walk_own(f.node):
+    def local_aliases(g):
+        out = {'self._indentation_tos'}
+        for n in walk_own(g.node):
             if isinstance(n, ast.Assign) and len(n.targets) == 1 and isinstance(n.targets[0], ast.Name) \
                     and norm(n.value) == 'self._indentation_tos':
-                aliases.add(n.targets[0].id)
+                out.add(n.targets[0].id)
+        return out
+    for f in mod.funcs.values():
+        # aliases of the stack top: locals assigned from it, and parameters that every call site binds to it
+        aliases = local_aliases(f)
+        params = f.params()
+        for idx, p_ in enumerate(params[1:] if f.cls is not None else params):
+            bound = []
+            for g in mod.funcs.values():
+                for c in walk_own(g.node):
+                    if isinstance(c, ast.Call) and isinstance(c.func, ast.Attribute) and c.func.attr == f.name \
+                            and norm(c.func.value) == 'self' and f.cls is not None:
+                        arg = c.args[idx] if idx < len(c.args) else next((k.value for k in c.keywords if k.arg == p_), None)
+                        bound.append(arg is not None and norm(arg) in local_aliases(g))
+            if bound and all(bound) and not any(isinstance(x, ast.Name) and x.id == p_ and isinstance(x.ctx, ast.Store)
+                                               for x in walk_own(f.node)):
+                aliases.add(p_)
         for n in walk_own(f.node):
             if not _is_pop(n):
                 continue
